@@ -27,6 +27,9 @@ const WIDE_ALPHA: [&str; 5] = ["ä", "Ä", "\u{fb01}", "1", " "];
 /// character, different lengths in bytes and in characters) with frequencies 1 or 2
 const CLOSEST_WORDS: [&str; 10] = ["a", "b", "ab", "cd", "ä", "äb", "日", "日本", "日本c", "\u{10400}\u{10400}"];
 const CLOSEST_QUERIES: [&str; 12] = ["", "a", "b", "ab", "bb", "abc", "xyz", "ä", "日", "日本", "本c", "\u{10400}"];
+/// format phase: characters a line-oriented "key TAB count" file format could mistake for syntax
+/// (comment markers, quotes, a backslash) next to a letter
+const FORMAT_ALPHA: [&str; 7] = ["#", ";", "\"", "\\", "/", "a", " "];
 const QUERY_ALPHA: [&str; 3] = ["a", "b", "A"];
 const QUERY_MAX_LEN: usize = 3;
 const MAX_SIZES: [Option<usize>; 5] = [None, Some(0), Some(1), Some(2), Some(10)];
@@ -395,6 +398,37 @@ fn check_closest(run: &mut Run, ctx: &mut Ctx, entries: &[(String, usize)]) {
     run.count_n("get_closest queries judged", 2 * queries.len() as u64);
 }
 
+/// format phase: one line, one mode; creation against the reference count and the save/load round
+/// trip of that very dictionary (no cache: the point is entries whose spelling a line-oriented file
+/// format could mistake for syntax)
+fn check_format(run: &mut Run, ctx: &mut Ctx, line: &str, use_characters: bool, char_grams: u8) {
+    let case = json!({"format_phase": true, "line": line, "use_characters": use_characters, "char_grams": char_grams});
+    run.evaluations += 1;
+    run.sample(|| case.clone());
+    let path = ctx.scratch.path("format.txt");
+    std::fs::write(&path, format!("{line}\n")).expect("cannot write file");
+    run.calls += 1;
+    let d = match catch(|| Dictionary::create(&[&path], None, None, 0, use_characters, char_grams, false)) {
+        Ok(Ok(d)) => d,
+        other => {
+            run.violation("create-succeeds", "", case, format!("Dictionary::create failed: {:?}", other.map(|r| r.map(|_| ()).map_err(|e| e.to_string()))));
+            return;
+        }
+    };
+    let reference = reference_counts(&[vec![line.to_string()]], None, use_characters, char_grams);
+    if !reference.is_empty() {
+        run.nontrivial += 1;
+    }
+    run.compared += 1;
+    for (clause, class, detail) in oracle_dictionary(&reference, None, &d) {
+        run.violation(&clause, &class, case.clone(), detail);
+    }
+    run.calls += 2;
+    for (clause, class, detail) in oracle_round_trip(&d, &ctx.scratch.path("format_saved.txt")) {
+        run.violation(&clause, &class, case.clone(), detail);
+    }
+}
+
 /// the dictionaries of the closest-entry phase: every set of 1..=3 words x frequencies in {1, 2}
 fn closest_specs() -> Vec<Vec<(String, usize)>> {
     let n = CLOSEST_WORDS.len();
@@ -548,6 +582,11 @@ fn main() {
             let files: Vec<Vec<String>> = c["files"].as_array().unwrap().iter().map(|f| f.as_array().unwrap().iter().map(|l| l.as_str().unwrap().to_string()).collect()).collect();
             let choices = c["choices"].as_array().map(|a| a.iter().map(|v| v.as_u64().unwrap() as usize).collect()).unwrap_or_default();
             check_sched(&mut run, &mut ctx, &files, opt(&c["max_size"]), opt(&c["max_sequences"]), c["use_characters"].as_bool().unwrap(), c["char_grams"].as_u64().unwrap() as u8, c["workers"].as_u64().unwrap() as usize, c["bound"].as_u64().unwrap() as usize, c["controlled_reducer"].as_bool().unwrap_or(false), Some(choices));
+            drop(ctx);
+            run.finish();
+        }
+        if c.get("format_phase").is_some() {
+            check_format(&mut run, &mut ctx, c["line"].as_str().unwrap(), c["use_characters"].as_bool().unwrap(), c["char_grams"].as_u64().unwrap() as u8);
             drop(ctx);
             run.finish();
         }
@@ -726,6 +765,22 @@ fn main() {
                             check_case(&mut run, &mut ctx, &Case { files: files.clone(), max_size, max_sequences, use_characters, char_grams, threads: THREADS.to_vec(), term: vec![] });
                         }
                     }
+                }
+            }
+        }
+    }
+    // format phase (units of 32 lines each)
+    {
+        let lines: Vec<String> = strings(&FORMAT_ALPHA, run.pick(3, 4)).into_iter().filter(|l| l.chars().any(|c| c != 'a' && c != ' ')).collect();
+        run.bounds.insert("format_phase".into(), json!(format!("{} one-line corpora over {FORMAT_ALPHA:?} with at most {} symbols x 3 modes: creation and save/load round trip", lines.len(), run.pick(3, 4))));
+        let base = units + sus.len() + specs.len().div_ceil(64) + tu_verif::enumerate::threshold_lengths(run.pick(8, 10)).len();
+        for (k, chunk) in lines.chunks(32).enumerate() {
+            if !run.unit((base + k) as u64) {
+                continue;
+            }
+            for line in chunk {
+                for (use_characters, char_grams) in MODES {
+                    check_format(&mut run, &mut ctx, line, use_characters, char_grams);
                 }
             }
         }
